@@ -10,6 +10,7 @@ exit 1  at least one "VIOLATION property=<id> replay=<path>" line
 exit 2  undecided: timeout, tool crash, extraction break, vacuity guard tripped (reason printed)
 """
 import concurrent.futures as cf
+import threading
 import glob
 import json
 import os
@@ -551,9 +552,18 @@ def main(argv):
     results = []
     with cf.ThreadPoolExecutor(max_workers=int(os.environ.get('GV_JOBS', '8'))) as ex:
         futs = {}
-        for (u, c, cfile) in jobs:
+        # scheduling only: a check marked "heavy" (many GB per solver process, and the portfolio runs two) never runs at
+        # the same time as another heavy one, so that a thorough run cannot exhaust the machine's memory and get a solver
+        # killed (exit -9 = undecided).  Verdicts are not affected.
+        heavy_lock = threading.Lock()
+        def _run(fn, u, c, cfile):
+            if c.get('heavy'):
+                with heavy_lock:
+                    return fn(u, c, cfile, sdir, known)
+            return fn(u, c, cfile, sdir, known)
+        for (u, c, cfile) in sorted(jobs, key=lambda j: 0 if j[1].get('heavy') else 1):
             fn = do_z3 if c.get('kind') == 'z3' else do_check
-            futs[ex.submit(fn, u, c, cfile, sdir, known)] = (u, c)
+            futs[ex.submit(_run, fn, u, c, cfile)] = (u, c)
         for f in cf.as_completed(futs):
             u, c = futs[f]
             try:
